@@ -396,8 +396,8 @@ fn publish_job(src: SrcKind, len: usize) -> Job {
 
 pub fn plan(tier: Tier) -> Plan {
   let len = match tier {
-    Tier::Quick => 6,
-    Tier::Thorough => 8,
+    Tier::Quick => 7,
+    Tier::Thorough => 9,
   };
   let mut jobs = vec![];
   for src in [SrcKind::Hot, SrcKind::Cold] {
